@@ -23,9 +23,9 @@ UNITS = [
          remove_bodies=["bidib_node_stall_ready"], timeout=600, covers=2, min_obligations=8),
     Unit(name="C03.state_update", src=SRC, defines=["VP_H_STATE_UPDATE"], functions=["bidib_node_state_update"], props=["C03"],
          replace=["bidib_node_try_queued_messages", "bidib_add_to_buffer", "bidib_flush"], remove_bodies=["bidib_node_stall_ready"],
-         kind="bounded", bound="at most 3 outstanding requests per node (each arbitrary: type, age, cost via the lazy queue abstraction); the scan loop is unwound completely for that size "
-                               "(it restarts once per expired request, so its trip count grows with the queue length)",
-         unwindset={"bidib_node_state_update.0": 18, "accepted.0": 6}, timeout=900, covers=2, min_obligations=10,
+         kind="bounded", bound="at most 3 outstanding requests per node (each arbitrary: type, age, cost via the lazy queue abstraction); the two scan loops are unwound completely for that size"
+                               "",
+         unwindset={"bidib_node_state_update.0": 5, "bidib_node_state_update.1": 5, "accepted.0": 6}, timeout=900, covers=2, min_obligations=10,
          note="all 256 uplink type codes, arbitrary request ages"),
     Unit(name="C04.stall_ready", src=SRC, defines=["VP_H_STALL_READY"], functions=["bidib_node_stall_ready"], props=["C04"], no_dfcc=True,
          remove_bodies=["bidib_node_try_send", "bidib_node_try_queued_messages", "bidib_node_state_update", "bidib_node_update_stall", "bidib_node_state_table_reset", "bidib_node_state_table_free",
